@@ -39,6 +39,10 @@ func (m *Map) Find(id uint64) (schema.Node, error) {
 	if err != nil {
 		return schema.Node{}, err
 	}
+	// The nodes are cached and read again on every lookup for the life of
+	// the map: the (trusted) schema data must not be subject to a
+	// traversal limit that is used up over time.
+	msg.TraverseLimit = 1 << 63
 	req, err := schema.ReadRootCodeGeneratorRequest(msg)
 	if err != nil {
 		return schema.Node{}, err
